@@ -906,7 +906,9 @@ def rules(tier):
             # C14-db: continue -> break in the restore walk
             ('C08.R24', _shared_rule('c08', 'r24_restore_visits_every_position')),
             # session files hold one state
-            ('C08.R25', _shared_rule('plumbing', 'writers_truncate'))]
+            ('C08.R25', _shared_rule('plumbing', 'writers_truncate')),
+            # next() ends the run only on an empty heap
+            ('C08.R26', _shared_rule('plumbing', 'generator_glue'))]
 
 
 META = {
